@@ -146,8 +146,9 @@ def rule_wire(R):
                  "a release step is built from an entry of the release list (packet_id = %s)" % show(fields.get("packet_id")),
                  where=s["span"])
     R.floor("wire/step", m, 1, "ReleaseStep constructions")
-    re = outq.rearm_fns(f)
-    R.ob("wire/rearmed", any("pending_release" in q for q in re.values()),
+    re = outq.rearm_sites(f)
+    _, ccode = roles.session_connect(f)
+    R.ob("wire/rearmed", any(q.get("pending_release") == "always" for n, q in re.items() if outq.calls_to(f, ccode, f.bodies[n])),
          "release entries are re-armed for replay on a new connection (PUBREL, not PUBLISH, is retransmitted)")
 
 
